@@ -2,6 +2,7 @@
 //! Usage: vmon <PROPERTY-ID> [--seed N] [--tier quick|thorough] [--out FILE] [--replay FILE]
 
 mod common;
+mod concmon;
 mod crashmon;
 mod robust;
 mod storemon;
@@ -24,6 +25,10 @@ fn main() {
         robust::codec::worker(&argv[1], &argv[2]);
         return;
     }
+    if id == "C10-worker" {
+        concmon::handles::worker(&argv[1]);
+        return;
+    }
     if id == "crash-show" {
         crashmon::show(argv[1].parse().unwrap(), argv[2].parse().unwrap());
         return;
@@ -36,6 +41,11 @@ fn main() {
         "C02" => crashmon::main("C02", &args),
         "C08" => crashmon::faults::main(&args),
         "C17" => crashmon::tails::main(&args),
+        "C03" => concmon::snapshots::main(&args),
+        "C09" => concmon::writes::main(&args),
+        "C10" => concmon::handles::main(&args),
+        "C29" => concmon::backup::main(&args),
+        "C35" => concmon::locks::main(&args),
         "C04" => storemon::main(storemon::Kind::C04, &args),
         "C05" => storemon::main(storemon::Kind::C05, &args),
         "C06" => storemon::main(storemon::Kind::C06, &args),
